@@ -6,7 +6,7 @@ from tornado import escape as _escape_preload   # imported before the workers fo
 ID = "C21"
 LEAN_TARGETS = ["TornadoModel.C21.Props"]
 THEOREMS = ["TornadoModel.C21." + n for n in [
-    "escape_safe", "escape_no_special", "unescape_escape", "escape_bytes",
+    "escape_safe", "escape_no_special", "unescape_escape", "escape_bytes", "escape_scalar", "unescape_escape_bytes",
     "unquote_quote", "unquote_quote_bytes", "quote_ascii",
     "json_no_close_tag",
     "utf8_roundtrip", "utf8_roundtrip_bytes", "utf8_rejects_other",
@@ -28,12 +28,16 @@ ASSUMPTIONS = [
 ]
 RULE = ("text over an alphabet dense in & < > \" ' ; # % + = and entity/percent fragments, plus Latin-1, BMP, astral and control "
         "characters; all 2-character strings over a 40-symbol alphabet exhaustively; random bytes biased to UTF-8 boundary bytes; "
-        "nested JSON values; non-trivial = the input contains at least one character the helper must transform "
+        "nested JSON values; a systematic boundary stream: each of 20 boundary code points (U+FEFF, NUL, U+7F/80, U+7FF/800, U+D7FF/E000, U+FFFD, U+FFFE/FFFF, "
+        "U+10000, U+10FFFF, combining marks, zero-width/line separators) alone, doubled and at the start / middle / end of a base text, as str AND as "
+        "UTF-8 bytes, for every helper and API variant (plus modes, encodings, key/value/nested position, qs flags), plus byte strings around the BOMs; "
+        "non-trivial = the input contains at least one character the helper must transform "
         "(special character, reference, non-unreserved byte, '</', non-ASCII, '&'/'=' in a query); distinct by canonical JSON")
 EXHAUSTIVE = {"quick": False, "thorough": False}
 CLAUSES = {
     "HTML-escaping yields text with no < > quote apostrophe and no & outside the entities it introduced": "escape_safe",
-    "... and unescapes back to the input": "unescape_escape (every string, every table containing the five entities)",
+    "... and unescapes back to the input": "unescape_escape (every string, every table containing the five entities); unescape_escape_bytes (bytes input, and the escaped "
+                                           "text handed back as UTF-8 bytes), escape_scalar",
     "URL escaping and unescaping are inverse in both plus modes (and for the bytes-returning form)": "unquote_quote (str form and str->bytes form), unquote_quote_bytes, quote_ascii",
     "JSON encoding never contains '</'": "json_no_close_tag (every string); tie only: json.dumps itself",
     "... and decodes to an equal value": "tie only: json_decode(json_encode(v)) == v on the implementation",
@@ -49,7 +53,8 @@ ALPHA40 = list(dict.fromkeys(ALPHA40 + ["q", "u", "o", "-", "1", "G"]))[:40]
 assert len(ALPHA40) == 40
 TEXT_PIECES = ["&", "<", ">", '"', "'", "&amp;", "&lt;", "&gt;", "&quot;", "&#x27;", "&#39;", ";", "#", "a", "b", "Z", "0", "9",
                " ", "\t", "\n", "\x0c", "\xe9", "\xff", "Ā", "€", "퟿", "", "�", "￾", "￿",
-               "\U00010000", "\U0001f600", "\U0010ffff", "\x00", "\x0b", "\x1f", "\x7f", "\x80", "\x85", "\x9f", "</", "<\\/", "%", "+", "="]
+               "\U00010000", "\U0001f600", "\U0010ffff", "\x00", "\x0b", "\x1f", "\x7f", "\x80", "\x85", "\x9f", "</", "<\\/", "%", "+", "=",
+               "\ufeff", "\u07ff", "\u0800", "\u0301", "\u200b", "\ufe0f"]
 SURROGATES = ["\ud800", "\udbff", "\udc00", "\udfff"]
 REF_PIECES = ["&", "&amp;", "&amp", "&ampx", "&ampx;", "&notit;", "&notin;", "&notin", "&not", "&no", "&n;", "&lt", "&LT;", "&AMP", "&GT",
               "&quot;", "&apos;", "&#x27;", "&#39;", "&#65;", "&#65", "&#065;", "&#x41;", "&#X41", "&#x4a", "&#xg", "&#x", "&#", "&#;", "&;",
@@ -64,6 +69,16 @@ PCT_PIECES = ["%", "%%", "%4", "%41", "%4g", "%g1", "%zz", "%e9", "%E9", "%C3%A9
               "a", "Z", "9", "-", "_", ".", "~", "&", "=", "\xe9", "€", "\U0001f600", "\x80", "%e", "\xe9%41", "%41\xe9", "%C3\xa9", "%c3%"]
 QS_PIECES = ["&", "&&", "=", "==", "a", "b", "a=1", "a=2", "b=", "=c", "a=", "%", "%26", "%3D", "%3d", "%41", "%e9", "%FF", "%4", "+", "%2B", " ",
              "\xe9", "\xff", ";", "a=b=c", "x+y=z+w", "Ā", "€", "k=Ā", "Ā=v", "%u", "=%", "&=", "=&", "a&b"]
+# Boundary code points placed systematically at the START, in the middle and at the end of the text handed to every helper
+# (str form and UTF-8 bytes form): U+FEFF (its UTF-8 form EF BB BF is the byte order mark a "utf-8-sig" style decoder
+# drops when it comes first), NUL, the 1/2-, 2/3- and 3/4-byte UTF-8 length boundaries, the surrogate neighbours, the
+# replacement character, noncharacters, the last code point, combining marks / variation selector, zero-width and
+# line-separator characters.
+EDGE_CPS = [0xFEFF, 0x0000, 0x007F, 0x0080, 0x07FF, 0x0800, 0xFFFD, 0xFFFE, 0xFFFF, 0x10000, 0x10FFFF,
+            0x0301, 0x20DD, 0xFE0F, 0x200B, 0x2028, 0x00A0, 0xD7FF, 0xE000, 0xFFFC]
+# byte strings around the byte-order marks of the Unicode encodings (most are NOT valid UTF-8: correspondence only)
+EDGE_BYTE_PREFIXES = [b"\xef\xbb\xbf", b"\xef\xbb\xbf\xef\xbb\xbf", b"\xef\xbb", b"\xef", b"\xef\xbb\xbe", b"\xef\xbb\xc0", b"\xef\xbf\xbe",
+                      b"\xef\xbc\xbf", b"\xee\xbb\xbf", b"\xff\xfe", b"\xfe\xff", b"\x00\x00\xfe\xff", b"\xff\xfe\x00\x00", b"+/v8", b"\xbf\xbb\xef"]
 BOUNDARY_BYTES = [0x00, 0x20, 0x25, 0x2B, 0x2F, 0x41, 0x7E, 0x7F, 0x80, 0x8F, 0x90, 0x9F, 0xA0, 0xBF, 0xC0, 0xC1, 0xC2, 0xDF, 0xE0, 0xE1, 0xEC, 0xED, 0xEE,
                   0xEF, 0xF0, 0xF1, 0xF3, 0xF4, 0xF5, 0xFF]
 
@@ -76,7 +91,9 @@ def _rand_unicode(rng, n):
     out = []
     for _ in range(n):
         k = rng.random()
-        if k < 0.5:
+        if k < 0.1:
+            out.append(chr(rng.choice(EDGE_CPS)))
+        elif k < 0.5:
             out.append(chr(rng.randint(0, 0x7f)))
         elif k < 0.7:
             out.append(chr(rng.randint(0x80, 0x7ff)))
@@ -122,7 +139,7 @@ def _json_value(rng, depth):
     if depth <= 0 or k < 0.45:
         j = rng.random()
         if j < 0.55:
-            return _text(rng, ["<", "/", "</", "</script>", "<\\/", "\\", '"', "a", " ", "\xe9", "\U0001f600", "\n", "\x00", "<!--", " ", "&"], 0, 6)
+            return _text(rng, ["<", "/", "</", "</script>", "<\\/", "\\", '"', "a", " ", "\xe9", "\U0001f600", "\n", "\x00", "<!--", " ", "&", "\ufeff", "\u0301", "\uffff", "\u0800"], 0, 6)
         if j < 0.7:
             return rng.choice([0, 1, -1, 2 ** 53, -2 ** 63, 10 ** 30, rng.randint(-1000, 1000)])
         if j < 0.8:
@@ -130,7 +147,7 @@ def _json_value(rng, depth):
         return rng.choice([True, False, None])
     if k < 0.75:
         return [_json_value(rng, depth - 1) for _ in range(rng.randint(0, 4))]
-    return {_text(rng, ["<", "/", "</", "k", "a", "\xe9", '"'], 0, 3): _json_value(rng, depth - 1) for _ in range(rng.randint(0, 4))}
+    return {_text(rng, ["<", "/", "</", "k", "a", "\xe9", '"', "\ufeff", "\u07ff"], 0, 3): _json_value(rng, depth - 1) for _ in range(rng.randint(0, 4))}
 
 
 def _pairs(rng):
@@ -157,6 +174,112 @@ def _encode_qs(pairs, raw=None):
     return "&".join(q(bytes.fromhex(k)) + "=" + q(bytes.fromhex(v)) for k, v in pairs)
 
 
+def _edge_texts(bases):
+    """every boundary code point alone, doubled, and at the start / in the middle / at the end (and at both ends) of each base text"""
+    out = []
+    for c in EDGE_CPS:
+        ch = chr(c)
+        out += [ch, ch + ch]
+        for b in bases:
+            out += [ch + b, b + ch + b, b + ch, ch + ch + b, ch + b + ch]
+    return list(dict.fromkeys(out))
+
+
+def _edge_cases(rng, tier):
+    """systematic boundary stream: each helper (and API variant: str / bytes argument, both plus modes, both encodings,
+    keep/strict flags, value / key / nested position) gets every text of _edge_texts and the byte strings around the BOMs"""
+    full = tier == "thorough"
+
+    def forms(t):
+        return (t, t.encode("utf-8"))
+    pre = EDGE_BYTE_PREFIXES
+    # --- xhtml_escape / xhtml_unescape round trip
+    for t in _edge_texts(["a", "<&\"'>"]):
+        for v in forms(t):
+            yield {"kind": "html", "v": _sb(v), "edge": True}
+    for p in pre:
+        for tail in (b"", b"<a>&"):
+            yield {"kind": "html", "v": _sb(p + tail), "edge": True}
+    # --- xhtml_unescape on reference-bearing text, and the numeric references OF the boundary code points
+    for t in _edge_texts(["&amp;", "&#65"] if full else ["&amp;"]):
+        for v in forms(t):
+            yield {"kind": "unesc", "v": _sb(v), "edge": True}
+    for c in EDGE_CPS:
+        for fmt in ("&#x%x;", "&#%d;", "&#X%X", "&#%d"):
+            for v in forms((fmt % c) + "x"):
+                yield {"kind": "unesc", "v": _sb(v), "edge": True}
+    for p in pre:
+        yield {"kind": "unesc", "v": _sb(p + b"&lt;"), "edge": True}
+    # --- url_escape -> url_unescape (str and bytes result), and url_unescape of raw / percent-encoded input
+    from urllib.parse import quote
+    for t in _edge_texts(["a /"] + (["%+&="] if full else [])):
+        for v in forms(t):
+            for plus in (True, False):
+                yield {"kind": "url", "v": _sb(v), "plus": plus, "edge": True}
+    for t in _edge_texts(["%41+"]):
+        qt = quote(t, safe="")
+        for v in forms(t) + forms(qt) + ((qt[:3] + t[1:]).encode("utf-8", "replace"),):
+            for plus in (True, False):
+                yield {"kind": "unq", "v": _sb(v), "plus": plus, "edge": True}
+    for p in pre:
+        for plus in (True, False):
+            yield {"kind": "url", "v": _sb(p + b" a"), "plus": plus, "edge": True}
+            yield {"kind": "unq", "v": _sb(p + b"%41+"), "plus": plus, "edge": True}
+            yield {"kind": "unq", "v": _sb(quote(p) + "%41+"), "plus": plus, "edge": True}
+    # --- utf8 / to_unicode (and aliases): str form, bytes form, all ordered pairs of boundary code points
+    for t in _edge_texts(["a"]):
+        yield {"kind": "utf8", "val": {"t": "str", "v": t}, "edge": True}
+        yield {"kind": "utf8", "val": {"t": "bytes", "hex": t.encode("utf-8").hex()}, "edge": True}
+    for a in EDGE_CPS:
+        for b in EDGE_CPS:
+            if a != b:
+                t = chr(a) + chr(b)
+                yield {"kind": "utf8", "val": {"t": "bytes", "hex": t.encode("utf-8").hex()}, "edge": True}
+                if full:
+                    yield {"kind": "utf8", "val": {"t": "str", "v": t}, "edge": True}
+                    yield {"kind": "html", "v": _sb(t.encode("utf-8")), "edge": True}
+    for p in pre:
+        for tail in (b"", b"a"):
+            yield {"kind": "utf8", "val": {"t": "bytes", "hex": (p + tail).hex()}, "edge": True}
+    # --- json_encode / json_decode (value and key position) and recursive_unicode (bytes leaves, keys, tuples)
+    for t in _edge_texts(["</"]):
+        yield {"kind": "json", "value": t, "edge": True}
+        yield {"kind": "json", "value": {t: [t, None]}, "edge": True}
+    for t in _edge_texts(["a"]):
+        for flip in (0, 1, 2):
+            yield {"kind": "utf8", "val": {"t": "nested", "v": [t, {t: t}], "flip": flip}, "edge": True}
+    # --- parse_qs_bytes: boundary text as name / value / both, strict and lenient encoding, bytes and latin-1 str argument
+    qtexts = [t.encode("utf-8") for t in _edge_texts(["a&=+%"])] + list(pre)
+    for i, tb in enumerate(qtexts):
+        pairs = [[tb.hex(), b"1".hex()], [b"k".hex(), tb.hex()], [tb.hex(), tb.hex()]]
+        yield {"kind": "qsenc", "pairs": pairs, "qs": _encode_qs(pairs), "as_bytes": i % 2 == 0, "edge": True}
+        yield {"kind": "qsenc", "pairs": pairs, "qs": _encode_qs(pairs, rng), "as_bytes": i % 2 == 1, "raw": True, "edge": True}
+        if full:
+            yield {"kind": "qsenc", "pairs": pairs, "qs": _encode_qs(pairs), "as_bytes": i % 2 == 1, "edge": True}
+            yield {"kind": "qsenc", "pairs": pairs, "qs": _encode_qs(pairs, rng), "as_bytes": i % 2 == 0, "raw": True, "edge": True}
+    for i, t in enumerate(_edge_texts(["a"])):
+        qs = t + "=" + t + "&k=" + t + "&" + t
+        for j, v in enumerate(forms(qs)):
+            for f in (range(4) if full else [(i + j) % 4]):
+                yield {"kind": "qsraw", "v": _sb(v), "keep": bool(f & 1), "strict": bool(f & 2), "edge": True}
+    # --- the UTF-8 decoder itself: boundary encodings whole, truncated at either end, and the BOM neighbourhood
+    for t in _edge_texts(["A"]):
+        b = t.encode("utf-8")
+        for x in dict.fromkeys([b, b[:-1], b[1:]]):
+            if x:
+                yield {"kind": "dec", "hex": x.hex()}
+    for p in pre:
+        yield {"kind": "dec", "hex": (p + b"A").hex()}
+
+
+def _edge_lead(rng, s, p=0.12):
+    """random text now and then gets a boundary code point in FIRST position (str or bytes alike)"""
+    if rng.random() < p:
+        c = chr(rng.choice(EDGE_CPS))
+        return (c if isinstance(s, str) else c.encode("utf-8")) + s
+    return s
+
+
 def gen_cases(rng, tier):
     scale = {"quick": 1, "thorough": 25, "search": 2}[tier]
     # exhaustive 2-character strings over the 40-symbol alphabet (html escape round trip + unescape)
@@ -176,6 +299,7 @@ def gen_cases(rng, tier):
             yield {"kind": "url", "v": _sb(bytes([b0, 0x20, b0])), "plus": not (b0 & 1)}
             if not 0xd8 <= b0 <= 0xdf:
                 yield {"kind": "url", "v": _sb(chr(b0) + chr(b0 * 256 + 0x41)), "plus": bool(b0 & 2)}
+        yield from _edge_cases(rng, tier)
     if tier == "thorough":
         for b0 in [0xE0, 0xED, 0xF0, 0xF4, 0xEF, 0xF3]:
             for b1 in range(0x70, 0xD0, 1):
@@ -189,7 +313,7 @@ def gen_cases(rng, tier):
             s = _text(rng, TEXT_PIECES, 0, 4) + _rand_unicode(rng, rng.randint(0, 6)) + _text(rng, TEXT_PIECES, 0, 4)
         else:
             s = _text(rng, TEXT_PIECES + SURROGATES, 1, 6)
-        yield {"kind": "html", "v": _sb(_maybe_bytes(rng, s))}
+        yield {"kind": "html", "v": _sb(_maybe_bytes(rng, _edge_lead(rng, s)))}
     for _ in range(900 * scale):
         k = rng.random()
         if k < 0.8:
@@ -204,7 +328,7 @@ def gen_cases(rng, tier):
             s = "&#" + rng.choice(["", "x", "X"]) + "".join(rng.choice("0123456789abcdefABCDEFg;") for _ in range(rng.randint(0, 9))) + _text(rng, REF_PIECES, 0, 2)
         else:
             s = _text(rng, REF_PIECES + SURROGATES, 1, 6)
-        yield {"kind": "unesc", "v": _sb(_maybe_bytes(rng, s, 0.1))}
+        yield {"kind": "unesc", "v": _sb(_maybe_bytes(rng, _edge_lead(rng, s, 0.06), 0.1))}
     for _ in range(700 * scale):
         k = rng.random()
         if k < 0.35:
@@ -215,6 +339,7 @@ def gen_cases(rng, tier):
             v = _text(rng, PCT_PIECES + SURROGATES, 1, 5)
         else:
             v = _rand_bytes(rng, rng.randint(0, 8))
+        v = _edge_lead(rng, v)
         yield {"kind": "url", "v": _sb(_maybe_bytes(rng, v, 0.2) if isinstance(v, str) else v), "plus": rng.random() < 0.5}
     for _ in range(900 * scale):
         k = rng.random()
@@ -225,7 +350,7 @@ def gen_cases(rng, tier):
             v = _text(rng, PCT_PIECES + SURROGATES, 1, 5)
         else:
             v = _rand_bytes(rng, rng.randint(0, 6)) + rng.choice([b"", b"%41", b"%", b"+"]) + _rand_bytes(rng, rng.randint(0, 3))
-        yield {"kind": "unq", "v": _sb(v), "plus": rng.random() < 0.5}
+        yield {"kind": "unq", "v": _sb(_edge_lead(rng, v, 0.06)), "plus": rng.random() < 0.5}
     for _ in range(500 * scale):
         yield {"kind": "dec", "hex": _rand_bytes(rng, rng.randint(1, 7)).hex()}
     for _ in range(500 * scale):
@@ -233,11 +358,11 @@ def gen_cases(rng, tier):
     for _ in range(300 * scale):
         k = rng.random()
         if k < 0.3:
-            val = {"t": "str", "v": _rand_unicode(rng, rng.randint(0, 8)) + (rng.choice(SURROGATES) if rng.random() < 0.08 else "")}
+            val = {"t": "str", "v": _edge_lead(rng, _rand_unicode(rng, rng.randint(0, 8))) + (rng.choice(SURROGATES) if rng.random() < 0.08 else "")}
         elif k < 0.55:
-            val = {"t": "bytes", "hex": _rand_unicode(rng, rng.randint(0, 6)).encode("utf-8").hex()}
+            val = {"t": "bytes", "hex": _edge_lead(rng, _rand_unicode(rng, rng.randint(0, 6)).encode("utf-8")).hex()}
         elif k < 0.75:
-            val = {"t": "bytes", "hex": _rand_bytes(rng, rng.randint(0, 6)).hex()}
+            val = {"t": "bytes", "hex": (rng.choice(EDGE_BYTE_PREFIXES) if rng.random() < 0.1 else b"").hex() + _rand_bytes(rng, rng.randint(0, 6)).hex()}
         elif k < 0.8:
             val = {"t": "none"}
         elif k < 0.9:
@@ -315,6 +440,15 @@ def _bytesify(v, flip):
     return v, v
 
 
+def _esc_bytes(esc):
+    if _is_err(esc):
+        return None
+    try:
+        return esc.encode("utf-8")
+    except UnicodeEncodeError:
+        return None
+
+
 def run_impl(case):
     from tornado import escape
     k = case["kind"]
@@ -322,7 +456,9 @@ def run_impl(case):
         v = _unsb(case["v"])
         esc = _try(escape.xhtml_escape, v)
         rt = _try(escape.xhtml_unescape, esc) if not _is_err(esc) else None
-        return {"esc": esc, "rt": rt}
+        eb = _esc_bytes(esc)    # API variant: the escaped text handed back as UTF-8 bytes (xhtml_unescape takes str | bytes)
+        rtb = _try(escape.xhtml_unescape, eb) if eb is not None else None
+        return {"esc": esc, "rt": rt, "rtb": rtb}
     if k == "unesc":
         return {"out": _try(escape.xhtml_unescape, _unsb(case["v"]))}
     if k == "url":
@@ -348,7 +484,7 @@ def run_impl(case):
     if k == "utf8":
         val = case["val"]
         if val["t"] == "nested":
-            a, b = _bytesify(val["v"], [len(json.dumps(val["v"]))])
+            a, b = _bytesify(val["v"], [val.get("flip", len(json.dumps(val["v"])))])
             return {"rec": _try(lambda: escape.recursive_unicode(a) == b and type(escape.recursive_unicode(a)) is type(b))}
         v = _mk_val(val)
         u8 = _try(escape.utf8, v)
@@ -409,8 +545,10 @@ def _wire_val(val):
 def model_requests(case, impl):
     k = case["kind"]
     if k == "html":
+        eb = _esc_bytes(impl["esc"])
         return [line(ID, "escape", _wire_sb(case["v"]))] + \
-               ([] if _is_err(impl["esc"]) else [line(ID, "unescape", impl["esc"], _table_for(impl["esc"]))])
+               ([] if _is_err(impl["esc"]) else [line(ID, "unescape", impl["esc"], _table_for(impl["esc"]))]) + \
+               ([] if eb is None else [line(ID, "unescape", eb, _table_for(impl["esc"]))])
     if k == "unesc":
         v = _wire_sb(case["v"])
         return [line(ID, "unescape", v, _table_for(v))]
@@ -461,7 +599,8 @@ def _mdict(reply):
 def model_result(case, replies):
     k = case["kind"]
     if k == "html":
-        return {"esc": _val(replies[0], True), "rt": _val(replies[1], True) if len(replies) > 1 else None}
+        return {"esc": _val(replies[0], True), "rt": _val(replies[1], True) if len(replies) > 1 else None,
+                "rtb": _val(replies[2], True) if len(replies) > 2 else None}
     if k == "unesc":
         return {"out": _val(replies[0], True)}
     if k == "url":
@@ -539,6 +678,8 @@ def spec_violation(case, impl, replies):
             return "escaped text is unsafe: %r" % impl["esc"]
         if impl["rt"] != t:
             return "xhtml_unescape(xhtml_escape(s)) != s: %r" % (impl["rt"],)
+        if impl["rtb"] != t:
+            return "xhtml_unescape(utf8(xhtml_escape(s))) != s: %r" % (impl["rtb"],)
         return None
     if k == "url":
         v = _unsb(case["v"])
@@ -642,6 +783,28 @@ def nontrivial(case, impl):
     return True
 
 
+def _lead_is_bytes(case):
+    return (case["v"][0] == "b") if "v" in case else case.get("val", {}).get("t") == "bytes"
+
+
+def _lead_cp(case):
+    """first code point of the text argument (bytes: of its UTF-8 decoding, None when invalid / empty / not text)"""
+    if isinstance(case.get("v"), list):
+        v = _unsb(case["v"])
+    elif case.get("kind") == "utf8" and case["val"]["t"] == "str":
+        v = case["val"]["v"]
+    elif case.get("kind") == "utf8" and case["val"]["t"] == "bytes":
+        v = bytes.fromhex(case["val"]["hex"])
+    else:
+        return None
+    if isinstance(v, bytes):
+        try:
+            v = v.decode("utf-8")
+        except UnicodeDecodeError:
+            return None
+    return ord(v[0]) if v else None
+
+
 def stats(case, impl):
     k = case["kind"]
     out = ["kind:" + k]
@@ -652,6 +815,11 @@ def stats(case, impl):
             out.append("%s:%s:%s" % (k, key, impl[key]))
     if k == "utf8":
         out.append("utf8:type:" + case["val"]["t"])
+    if case.get("edge"):
+        out.append("edge:" + k)
+    lead = _lead_cp(case)
+    if lead is not None and lead in EDGE_CPS:
+        out.append("lead:U+%04X:%s" % (lead, "bytes" if _lead_is_bytes(case) else "str"))
     if k == "qsraw":
         out.append("qsraw:keep=%s,strict=%s" % (case["keep"], case["strict"]))
     return out
@@ -670,6 +838,14 @@ def shrink(case):
         step = 2 if tag == "b" else 1
         for i in range(0, len(val), step):
             yield {**case, "v": [tag, val[:i] + val[i + step:]]}
+    if k == "utf8" and case["val"]["t"] == "str":
+        v = case["val"]["v"]
+        for i in range(len(v)):
+            yield {**case, "val": {"t": "str", "v": v[:i] + v[i + 1:]}}
+    if k == "utf8" and case["val"]["t"] == "bytes":
+        h = case["val"]["hex"]
+        for i in range(0, len(h), 2):
+            yield {**case, "val": {"t": "bytes", "hex": h[:i] + h[i + 2:]}}
     if k == "dec":
         h = case["hex"]
         for i in range(0, len(h), 2):
